@@ -6,6 +6,8 @@ import (
 	"go/token"
 	"go/types"
 	"math"
+	"os"
+	"runtime/debug"
 	"strings"
 
 	"golang.org/x/tools/go/ssa"
@@ -120,18 +122,19 @@ func (p *Path) unsupported(format string, args ...interface{}) pathAbort {
 	if p.cur != nil && p.cur.fn != nil {
 		loc = " in " + p.cur.fn.String()
 	}
+	if os.Getenv("VERIF_TRACE_UNSUP") != "" {
+		fmt.Fprintf(os.Stderr, "UNSUPPORTED: %s%s\n%s\n", fmt.Sprintf(format, args...), loc, debug.Stack())
+		for f := p.cur; f != nil; f = f.caller {
+			fmt.Fprintf(os.Stderr, "   at %s\n", f.fn)
+		}
+	}
 	return pathAbort{abUnsupported, fmt.Sprintf(format, args...) + loc}
 }
 
 // ---- solver interaction ----
 
 func (p *Path) check(extra *Term) string {
-	as := make([]*Term, 0, len(p.pc)+1)
-	as = append(as, p.pc...)
-	if extra != nil {
-		as = append(as, extra)
-	}
-	return p.w.solver.Check(as, false)
+	return p.w.solver.CheckWith(p.pc, extra, false)
 }
 
 func (p *Path) feasible(c *Term) bool {
@@ -220,7 +223,7 @@ func (p *Path) concretize(t *Term, what string) uint64 {
 			panic(p.unsupported("concretize(%s): more than %d feasible values", what, p.cfg.MaxValues))
 		}
 		p.res.Decisions++
-		r := p.w.solver.Check(p.pc, true, t)
+		r := p.w.solver.CheckWith(p.pc, nil, true, t)
 		if r != "sat" {
 			p.w.solver.EndModel()
 			if r == "unknown" {
@@ -249,14 +252,9 @@ func (p *Path) concretize(t *Term, what string) uint64 {
 }
 
 func (p *Path) model(extra *Term) ([]uint64, string) {
-	as := make([]*Term, 0, len(p.pc)+1)
-	as = append(as, p.pc...)
-	if extra != nil {
-		as = append(as, extra)
-	}
 	// collect scalar terms whose values are wanted: nondet vars; for array vars, selects
 	want, expand := p.wantedTerms()
-	r := p.w.solver.Check(as, true, want...)
+	r := p.w.solver.CheckWith(p.pc, extra, true, want...)
 	if r != "sat" {
 		p.w.solver.EndModel()
 		return nil, r
@@ -724,11 +722,12 @@ func (p *Path) execInstr(fr *Frame, ins ssa.Instruction) {
 	case *ssa.Alloc:
 		t := x.Type().(*types.Pointer).Elem()
 		var o *Obj
-		if at, ok := t.Underlying().(*types.Array); ok && isByteType(at.Elem()) && x.Heap && false {
+		if at, ok := t.Underlying().(*types.Array); ok && isByteType(at.Elem()) {
 			o = p.newBuf(int(at.Len()), x.Comment)
-		} else {
-			o = p.newObj(t, p.zero(t), x.Comment)
+			fr.locals[x] = &Ptr{Obj: o, Off: tt.Const(64, 0)}
+			return
 		}
+		o = p.newObj(t, p.zero(t), x.Comment)
 		fr.locals[x] = &Ptr{Obj: o}
 	case *ssa.Store:
 		ptr := p.operand(fr, x.Addr).(*Ptr)
